@@ -332,6 +332,12 @@ func Run(req *fnv1.RunFunctionRequest) *fnv1.RunFunctionResponse {
 				stt.Fields[str(op["field"])] = v
 			}
 		case "conn": // XR connection detail: fixed value, or copied from an observed composed resource
+			if f := str(op["onlyIf"]); f != "" {
+				// only while the XR has this field set (the user can make the key come and go)
+				if v, ok := getPath(xr, f); !ok || str(v) == "" {
+					continue
+				}
+			}
 			if rsp.Desired.Composite == nil {
 				rsp.Desired.Composite = &fnv1.Resource{}
 			}
